@@ -693,6 +693,16 @@ func (h *c15H) guarded(f func()) {
 }
 
 // NewUpdater(ctx, name); late != nil: the call is made by a held caller (ctx is its gate context)
+// newUpdaterReleased calls setec.NewUpdater the way set-up code usually does - with a context that is released as
+// soon as NewUpdater has returned (`ctx, cancel := context.WithTimeout(...); defer cancel()`): the context governs
+// the initial lookup and build only, so the updater must keep being notified of later installs after it ended.
+func newUpdaterReleased[T any](ctx context.Context, st *setec.Store, name string, newValue func([]byte) (T, error)) (*setec.Updater[T], error) {
+	uctx, cancel := context.WithCancel(ctx)
+	u, err := setec.NewUpdater(uctx, st, name, newValue)
+	cancel()
+	return u, err
+}
+
 func (h *c15H) doNew(ctx context.Context, name string, op c15Op, nested bool, late *c15Late) {
 	// the model index of the updater is its position in registration order; a held caller registers
 	// only after its release, so its index is fixed when its builder is first called
@@ -729,7 +739,7 @@ func (h *c15H) doNew(ctx context.Context, name string, op c15Op, nested bool, la
 	var err error
 	if op.Closer {
 		var uu *setec.Updater[*c15Closer]
-		uu, err = setec.NewUpdater(ctx, h.st, name, func(b []byte) (*c15Closer, error) {
+		uu, err = newUpdaterReleased(ctx, h.st, name, func(b []byte) (*c15Closer, error) {
 			assign()
 			seq, ok := h.build(idx, b, first)
 			if !ok {
@@ -742,7 +752,7 @@ func (h *c15H) doNew(ctx context.Context, name string, op c15Op, nested bool, la
 		}
 	} else {
 		var uu *setec.Updater[c15Plain]
-		uu, err = setec.NewUpdater(ctx, h.st, name, func(b []byte) (c15Plain, error) {
+		uu, err = newUpdaterReleased(ctx, h.st, name, func(b []byte) (c15Plain, error) {
 			assign()
 			seq, ok := h.build(idx, b, first)
 			if !ok {
@@ -1188,6 +1198,54 @@ func c15GenLookupWatch(seed uint64, k int) c15Input {
 	return in
 }
 
+// two or three NewUpdater calls on ONE name overlapping in time: the first one's builder is running (it performs the
+// others from inside, and possibly a version change + poll) while the others register and finish; builders fail or
+// succeed in every order.  A failed NewUpdater must not disturb the others: afterwards versions change, polls run and
+// every surviving updater must keep following.
+func c15GenOverlapNew(seed uint64, k int) c15Input {
+	r := NewRand(seed, uint64(5500+k))
+	in := c15Input{Allow: true, Declared: []int{0, 1}, Server: []int{3, 4}}
+	tok := 1
+	nextTok := func() int { tok++; return tok }
+	n := []int{0, 0, 1, 3}[r.IntN(4)] // mostly a declared name; sometimes one that the first call looks up
+	closer := func() bool { return r.IntN(3) != 0 }
+	okA, okB, okC := k%2 == 0, (k/2)%2 == 0, (k/4)%2 == 0
+	three := (k/8)%2 == 0
+	if r.IntN(3) == 0 {
+		in.Ops = append(in.Ops, c15Op{Op: "new", Name: n, OK: true, Closer: closer()}) // somebody was there before
+	}
+	a := c15Op{Op: "new", Name: n, OK: okA, Closer: closer()}
+	a.Inner = append(a.Inner, c15Op{Op: "new", Name: n, OK: okB, Closer: closer()})
+	if r.IntN(2) == 0 {
+		a.Inner = append(a.Inner, c15Op{Op: "put", Name: n, Tok: nextTok()}, c15Op{Op: "refresh"})
+	}
+	if three {
+		a.Inner = append(a.Inner, c15Op{Op: "new", Name: n, OK: okC, Closer: closer()})
+	}
+	if r.IntN(3) == 0 {
+		a.Inner = append(a.Inner, c15Op{Op: "get", Upd: r.IntN(4), OK: true})
+	}
+	in.Ops = append(in.Ops, a)
+	if r.IntN(4) == 0 {
+		in.Ops = append(in.Ops, c15Op{Op: "new", Name: n, OK: r.IntN(3) != 0, Closer: closer()}) // and one afterwards
+	}
+	rounds := 1 + r.IntN(3)
+	for q := 0; q < rounds; q++ {
+		in.Ops = append(in.Ops, c15Op{Op: "put", Name: n, Tok: nextTok()})
+		if r.IntN(3) == 0 {
+			in.Ops = append(in.Ops, c15Op{Op: "put", Name: 1 - n%2, Tok: nextTok()})
+		}
+		in.Ops = append(in.Ops, c15Op{Op: "refresh"})
+		for u := 0; u < 4; u++ {
+			in.Ops = append(in.Ops, c15Op{Op: "get", Upd: u, OK: r.IntN(8) != 0})
+		}
+		if r.IntN(3) == 0 {
+			in.Ops = append(in.Ops, c15Op{Op: "err", Upd: r.IntN(4)})
+		}
+	}
+	return in
+}
+
 // scenarios around the window between a lookup's unknown-name check and its flight (F8): one or two
 // callers are held in the window, somebody else may complete a lookup of the same name (and create
 // updaters on it), the service may activate a new version, the held callers are released in either
@@ -1392,6 +1450,23 @@ func runC15(o Opts) {
 			in := c15GenLookupWatch(o.Seed, k)
 			rec, _, _, _ := c15Run(t, in)
 			rec.Tags = append(rec.Tags, "updater-registered-through-a-lookup-then-new-version")
+			out.Emit(rec)
+		}
+		// overlapping NewUpdater calls on one name, some of them failing
+		no := 64
+		if o.Tier == "thorough" {
+			no = 1600
+		}
+		if o.N > 0 {
+			no = o.N / 6
+		}
+		for k := 0; k < no; k++ {
+			in := c15GenOverlapNew(o.Seed, k)
+			rec, _, _, _ := c15Run(t, in)
+			rec.Tags = append(rec.Tags, "overlapping-newupdater-calls-on-one-name")
+			if strings.Contains(fmt.Sprint(rec.Obs), "TNewDone false") {
+				rec.Tags = append(rec.Tags, "overlapping-newupdater-one-failed")
+			}
 			out.Emit(rec)
 		}
 		// late flights (F8)
